@@ -275,9 +275,49 @@ def check_ddl(ck: Check):
                      {"kind": "ddl-correspondence", "case": c, "impl": unstr(o), "model": unstr(ck.model_obs[dis[0]]), "theorem": "Props_C04.ddl_status_names_object"}, no_input=True)
 
 
+def template_tie(ck):
+    """Translator half of the tie: the status-message templates of cursor.py, re-read from /repo on every run with Python's ast,
+    emitted as a Coq statement about the model's ddl_status and proved by coqc."""
+    import ast
+    import os
+    import shutil
+    import subprocess
+
+    tree = ast.parse((core.REPO / "fakesnow" / "cursor.py").read_text())
+    want = {"SQL_CREATED_DATABASE": "CreateDatabase", "SQL_CREATED_SCHEMA": "CreateSchema", "SQL_CREATED_TABLE": "CreateTable", "SQL_CREATED_VIEW": "CreateView", "SQL_DROPPED": "DropAny"}
+    found = {}
+    for node in tree.body:
+        if isinstance(node, ast.Assign) and isinstance(node.targets[0], ast.Name) and node.targets[0].id in want:
+            v = node.value
+            if isinstance(v, ast.Call) and getattr(v.func, "id", "") == "Template" and isinstance(v.args[0], ast.Constant):
+                found[node.targets[0].id] = v.args[0].value
+    if set(found) != set(want):
+        raise core.MachineryError(f"status templates not found in cursor.py (translator fails closed): {sorted(set(want) - set(found))}")
+    clauses, src = [], {}
+    for name, text in found.items():
+        pre, sep, rest = text.partition("${name}")
+        if not (pre.startswith("SELECT '") and sep and rest.endswith("' as 'status'")):
+            return {name: text}, found
+        a, b = pre[len("SELECT '"):], rest[: -len("' as 'status'")]
+        src[name] = (a, b)
+        lit = lambda t: "[" + "; ".join(str(ord(c)) for c in t) + "]"  # noqa: E731
+        clauses.append(f"(forall n, ddl_status {want[name]} n true = {lit(a)} ++ n ++ {lit(b)})")
+    out = core.VERIF / "build" / f"c04tie-{os.getpid()}"
+    out.mkdir(parents=True, exist_ok=True)
+    try:
+        (out / "Tie.v").write_text("From FS Require Import Sexp Dml.\nOpen Scope Z_scope.\nTheorem templates_match_source :\n  " + " /\\\n  ".join(clauses) +
+                                   ".\nProof. repeat split; intros n; reflexivity. Qed.\nPrint Assumptions templates_match_source.\n")
+        r = subprocess.run(f"timeout 300 coqc -Q {core.COQ}/theories FS Tie.v", shell=True, cwd=out, capture_output=True, text=True)
+        ck.cov["template_tie"] = {"templates": len(found), "theorem": "templates_match_source (generated from /repo/fakesnow/cursor.py, checked by coqc)", "accepted": r.returncode == 0}
+        return ({} if r.returncode == 0 else {"coqc": r.stderr[-300:] + r.stdout[-300:]}), found
+    finally:
+        shutil.rmtree(out, ignore_errors=True)
+
+
 def main():
     ck = Check("C04", "Dml", "run_c04")
     ck.prepare()
+    tie_bad, tie_src = template_tie(ck)
     ck.trusted.append("modelled, not verified: DuckDB's evaluation of predicates (three-valued logic), INSERT/UPDATE/DELETE/TRUNCATE and its affected-row count; "
                       "sqlglot's rendering of the generated statements")
     n = 220 if ck.tier == "quick" else 6000
@@ -331,7 +371,10 @@ def main():
     check_ddl(ck)
     ck.cov["distinct_nontrivial"] = len({core.show(c) for c in cases if len(c) >= 3})
     ck.cov["samples"] += [{"statements": [r_stmt(s) for s in seqs[j]], "reports": [o[0] for o in impl[j]]} for j in (0, n_sweep + 1)]
-    return ck.finish(rule="sweep of every DML command x affected count 0/1/2/n + random sequences of 5-14 DML statements over three tables "
+    if tie_bad and not ck.violations:
+        ck.violation(f"the status-message templates of cursor.py no longer match the model's ddl_status: {tie_bad}; the generated theorem templates_match_source is rejected by coqc, "
+                     "so Props_C04.ddl_status_names_object is no longer about this code", {"templates": tie_src, "problem": tie_bad, "theorem": "templates_match_source"}, no_input=True)
+    return ck.finish(rule="the five DDL status templates re-translated from cursor.py and proved equal to the model's ddl_status; sweep of every DML command x affected count 0/1/2/n + random sequences of 5-14 DML statements over three tables "
                           "(NULLs, duplicates, 3VL predicates of depth <=3, column lists, INSERT..SELECT incl. self-insert, TRUNCATE); after EVERY statement the status row, "
                           "rowcount and the full contents of all three tables are compared; DDL status text for quoted/unquoted names; non-trivial = sequences of >=3 statements, distinct by encoding")
 
